@@ -83,7 +83,7 @@ TDupReg == /\ l <= Len(Rec) /\ E.ev = "dupreg" /\ E.id \in pending /\ E.cls = "e
 TNote == /\ l <= Len(Rec) /\ E.ev = "note"
          /\ notes # <<>> /\ Head(notes).id = E.id /\ Head(notes).tag = E.tag /\ notes' = Tail(notes)
          /\ Keep /\ UNCHANGED <<pending, pc, cid, chan, s2c, cur, writerShut, reader, subEnded, used>> /\ l' = l + 1
-TSubEnd == /\ l <= Len(Rec) /\ E.ev = "sub_end"
+TSubEnd == /\ l <= Len(Rec) /\ E.ev \in {"sub_end", "serfail"}     \* serfail: a call failed locally before it was registered
            /\ UNCHANGED <<nextId, pending, pc, cid, chan, result, c2s, s2c, seen, answered, junk, cur, writerShut, reader, notes, subEnded, used>> /\ l' = l + 1
 \* quiescence: nothing may be left behind; every frame the server wrote has been consumed by then
 TAfter == /\ l <= Len(Rec) /\ E.ev = "after"
